@@ -52,6 +52,25 @@ let show_obs = function
   | XUB -> "UB"
   | XBad -> "BAD"
 
+(* arbitrary-precision decimal <-> Coq N / Z (numbers up to 2^64 do not fit OCaml's 63-bit int) *)
+let ten = n_of_int 10
+let n_of_string s =
+  let acc = ref N0 in
+  String.iter (fun ch -> if ch < '0' || ch > '9' then failwith "n_of_string";
+                         acc := N.add (N.mul !acc ten) (n_of_int (Char.code ch - 48))) s;
+  !acc
+let rec string_of_n n =
+  match n with
+  | N0 -> "0"
+  | _ -> let (q, r) = N.div_eucl n ten in
+         (match q with N0 -> "" | _ -> string_of_n q) ^ string_of_int (int_of_n r)
+let z_of_string s =
+  if String.length s > 0 && s.[0] = '-' then
+    (match n_of_string (String.sub s 1 (String.length s - 1)) with N0 -> Z0 | Npos p -> Zneg p)
+  else (match n_of_string s with N0 -> Z0 | Npos p -> Zpos p)
+let string_of_z = function Z0 -> "0" | Zpos p -> string_of_n (Npos p) | Zneg p -> "-" ^ string_of_n (Npos p)
+let show_zs v = "V " ^ String.concat " " (List.map string_of_z v)
+
 let words s = List.filter (fun w -> w <> "") (String.split_on_char ' ' (String.trim s))
 
 let is_mut_fn fn = List.mem fn [2; 4; 6; 8; 10; 12; 14; 16; 22; 24; 26; 28; 30; 32; 42; 44]
@@ -67,6 +86,23 @@ let () =
         incr lines;
         let ln = !lines in
         match String.split_on_char ';' line with
+        | [c; o; _; _] when (match words c with fn :: _ -> (try int_of_string fn >= 300 with _ -> false) | _ -> false) ->
+          (match words c, words o with
+           | [fn; _; sza; ala; szb; alb; len; cap; x; hex], ("V" :: nums) ->
+             let i s = n_of_string s in
+             let a = { a_fn = i fn; a_A = { sz = i sza; al = i ala }; a_B = { sz = i szb; al = i alb };
+                       a_len = z_of_string len; a_cap = z_of_string cap;
+                       a_x = z_of_string x; a_ops = bytes_of_hex hex } in
+             let v = List.map z_of_string nums in
+             let m = amodel a in
+             if not (zlist_eqb m v) then begin
+               incr corr; Printf.printf "CORR %d model=%s :: %s\n" ln (show_zs m) line
+             end;
+             List.iter (fun (p, okb) ->
+               if not okb then begin
+                 incr mon; Printf.printf "MON C%02d %d allocation-observation-violates-the-statement :: %s\n" (int_of_n p) ln line
+               end) (amonitors a v)
+           | _ -> incr corr; Printf.printf "CORR %d malformed-alloc-case :: %s\n" ln line)
         | [c; o; t; f] ->
           (match words c with
            | [fn; cfg; sza; ala; szb; alb; len; addr; kind; hex] ->
